@@ -10,6 +10,7 @@ import (
 	"encoding/json"
 	"fmt"
 	"net"
+	"os"
 	"strings"
 	"time"
 	"unicode/utf8"
@@ -140,141 +141,158 @@ func main() {
 		atts = append(atts, attempt{"plain", "slow@example.com", "pw", -3}, attempt{"sasl", "slow@example.com", "pw", -3})
 	}
 	probe := 0
-	for _, a := range atts {
-		cur = a
-		w.Backend.Take()
-		nontriv := strings.IndexFunc(a.user+a.pw, func(r rune) bool {
-			return !(r >= 'a' && r <= 'z' || r >= 'A' && r <= 'Z' || r >= '0' && r <= '9' || r == '.' || r == '@')
-		}) >= 0
-		rep.Case(a.line(), nontriv)
-		rep.Hit("via:" + a.via)
-		viol := func(kind, what string) {
-			rep.Violate(kind, "authentication vs Model/Auth (Props.C04)", fmt.Sprintf("%s user=%q password=%q backend=%d: %s", a.via, a.user, a.pw, a.status, what), []string{a.line()})
-		}
-		// what the model says the backend must receive
-		op := "a.body"
-		if a.via == "sasl" {
-			op = "a.sbody"
-		}
-		m, err := hx.RunModel(o.Driver, []string{op + " " + hx.H(a.user) + " " + hx.H("example.com") + " " + hx.H(a.pw), "a.bind " + hx.H(a.user) + " " + hx.H("example.com")})
-		if err != nil {
-			rep.Violate("broken-correspondence", "driver", err.Error(), nil)
-			break
-		}
-		wantBody := m[0]
-		if a.user == "" || a.pw == "" {
-			wantBody = "refuse" // PLAIN with an empty field is refused before the backend is asked
-		}
-		accepted := false
-		var answer string
-		switch a.via {
-		case "login", "plain":
-			c := w.IMAP(true)
-			if a.status == -3 {
-				c.Wait = 15 * time.Second
+	// a second phase under a changed configuration: the default domain of config/raven.yaml is replaced while the server keeps
+	// running (no restart), and names without "@" are resolved again — what the backend is asked about and what the session is
+	// bound to follow the configuration together
+	dom := "example.com"
+	phases := [][]attempt{atts}
+	if o.Replay == "" {
+		phases = append(phases, []attempt{{"plain", "gina", "pw", 200}, {"login", "gina", "pw", 200}, {"plain", "gina@example.com", "pw", 200}, {"plain", "harry", "pw", 401}, {"login", "harry", "pw", 200}})
+	}
+	for phase, list := range phases {
+		if phase == 1 {
+			dom = "second.example"
+			if err := os.WriteFile("config/raven.yaml", []byte(fmt.Sprintf("domain: %q\nauth_server_url: %q\n", dom, w.Backend.Srv.URL)), 0644); err != nil {
+				break
 			}
-			var r world.Resp
-			if a.via == "login" {
-				r = c.Cmd("LOGIN " + a.user + " " + a.pw)
-			} else {
-				c.N++
-				tag := fmt.Sprintf("t%d", c.N)
-				r = c.Send(tag, tag+" AUTHENTICATE PLAIN\r\n")
-				if strings.HasPrefix(r.Tagged, "+") {
-					r = c.Send(tag, base64.StdEncoding.EncodeToString([]byte("\x00"+a.user+"\x00"+a.pw))+"\r\n")
-				}
+			rep.Hit("configuration:default-domain-changed")
+		}
+		for _, a := range list {
+			cur = a
+			w.Backend.Take()
+			nontriv := strings.IndexFunc(a.user+a.pw, func(r rune) bool {
+				return !(r >= 'a' && r <= 'z' || r >= 'A' && r <= 'Z' || r >= '0' && r <= '9' || r == '.' || r == '@')
+			}) >= 0
+			rep.Case(a.line(), nontriv)
+			rep.Hit("via:" + a.via)
+			viol := func(kind, what string) {
+				rep.Violate(kind, "authentication vs Model/Auth (Props.C04)", fmt.Sprintf("%s user=%q password=%q backend=%d: %s", a.via, a.user, a.pw, a.status, what), []string{a.line()})
 			}
-			accepted = r.OK()
-			answer = r.Tagged
-			if accepted {
-				// the store the session is bound to: where does a mailbox created now appear?
-				probe++
-				name := fmt.Sprintf("probe%d", probe)
-				c.Cmd("CREATE " + name)
-				u, d := owner(w, name)
-				b := strings.Fields(m[1])
-				if len(b) == 2 && (u != hx.UnH(b[0]) || !sameDomain(d, hx.UnH(b[1]))) {
-					viol("broken-correspondence", fmt.Sprintf("session bound to store of %q@%q, model binding %q@%q", u, d, hx.UnH(b[0]), hx.UnH(b[1])))
+			// what the model says the backend must receive
+			op := "a.body"
+			if a.via == "sasl" {
+				op = "a.sbody"
+			}
+			m, err := hx.RunModel(o.Driver, []string{op + " " + hx.H(a.user) + " " + hx.H(dom) + " " + hx.H(a.pw), "a.bind " + hx.H(a.user) + " " + hx.H(dom)})
+			if err != nil {
+				rep.Violate("broken-correspondence", "driver", err.Error(), nil)
+				break
+			}
+			wantBody := m[0]
+			if a.user == "" || a.pw == "" {
+				wantBody = "refuse" // PLAIN with an empty field is refused before the backend is asked
+			}
+			accepted := false
+			var answer string
+			switch a.via {
+			case "login", "plain":
+				c := w.IMAP(true)
+				if a.status == -3 {
+					c.Wait = 15 * time.Second
 				}
-				// and that is the address the backend verified (C04.2 on the real observations)
-				bodies := w.Backend.Bodies
-				if len(bodies) == 1 {
-					var got struct{ Email, Password string }
-					if json.Unmarshal([]byte(bodies[0]), &got) == nil && !sameAddress(got.Email, u+"@"+d) {
-						viol("impl-violation", fmt.Sprintf("the backend verified %q but the session is bound to the store of %q", got.Email, u+"@"+d))
+				var r world.Resp
+				if a.via == "login" {
+					r = c.Cmd("LOGIN " + a.user + " " + a.pw)
+				} else {
+					c.N++
+					tag := fmt.Sprintf("t%d", c.N)
+					r = c.Send(tag, tag+" AUTHENTICATE PLAIN\r\n")
+					if strings.HasPrefix(r.Tagged, "+") {
+						r = c.Send(tag, base64.StdEncoding.EncodeToString([]byte("\x00"+a.user+"\x00"+a.pw))+"\r\n")
 					}
 				}
-				rep.Hit("bound")
-			} else {
-				// a refused attempt leaves the session unauthenticated
-				if c.Cmd(`LIST "" "*"`).OK() {
-					viol("impl-violation", "after the refusal the session answers LIST with OK")
+				accepted = r.OK()
+				answer = r.Tagged
+				if accepted {
+					// the store the session is bound to: where does a mailbox created now appear?
+					probe++
+					name := fmt.Sprintf("probe%d", probe)
+					c.Cmd("CREATE " + name)
+					u, d := owner(w, name)
+					b := strings.Fields(m[1])
+					if len(b) == 2 && (u != hx.UnH(b[0]) || !sameDomain(d, hx.UnH(b[1]))) {
+						viol("broken-correspondence", fmt.Sprintf("session bound to store of %q@%q, model binding %q@%q", u, d, hx.UnH(b[0]), hx.UnH(b[1])))
+					}
+					// and that is the address the backend verified (C04.2 on the real observations)
+					bodies := w.Backend.Bodies
+					if len(bodies) == 1 {
+						var got struct{ Email, Password string }
+						if json.Unmarshal([]byte(bodies[0]), &got) == nil && !sameAddress(got.Email, u+"@"+d) {
+							viol("impl-violation", fmt.Sprintf("the backend verified %q but the session is bound to the store of %q", got.Email, u+"@"+d))
+						}
+					}
+					rep.Hit("bound")
+				} else {
+					// a refused attempt leaves the session unauthenticated
+					if c.Cmd(`LIST "" "*"`).OK() {
+						viol("impl-violation", "after the refusal the session answers LIST with OK")
+					}
+				}
+				c.Close()
+			case "sasl":
+				conn, err := net.Dial("unix", sock)
+				if err != nil {
+					viol("broken-correspondence", "cannot reach the SASL socket: "+err.Error())
+					continue
+				}
+				id := fmt.Sprint(1000 + probe)
+				probe++
+				fmt.Fprintf(conn, "AUTH\t%s\tPLAIN\tservice=smtp\tresp=%s\n", id, base64.StdEncoding.EncodeToString([]byte("\x00"+a.user+"\x00"+a.pw)))
+				conn.SetReadDeadline(time.Now().Add(15 * time.Second))
+				rd := bufio.NewReader(conn)
+				line, _ := rd.ReadString('\n')
+				// anything more than one line?
+				conn.SetReadDeadline(time.Now().Add(60 * time.Millisecond))
+				extra, _ := rd.ReadString('\n')
+				conn.Close()
+				answer = line
+				f := strings.Split(strings.TrimSuffix(line, "\n"), "\t")
+				if extra != "" || !strings.HasSuffix(line, "\n") || len(f) < 2 || f[1] != id || (f[0] != "OK" && f[0] != "FAIL" && f[0] != "CONT") {
+					viol("impl-violation", fmt.Sprintf("SASL answer is not a single OK/FAIL/CONT line carrying id %s: %q followed by %q", id, line, extra))
+					continue
+				}
+				accepted = f[0] == "OK"
+				if accepted && (len(f) != 3 || f[2] != "user="+a.user) {
+					viol("impl-violation", fmt.Sprintf("SASL OK line %q does not name the authenticated user", line))
 				}
 			}
-			c.Close()
-		case "sasl":
-			conn, err := net.Dial("unix", sock)
-			if err != nil {
-				viol("broken-correspondence", "cannot reach the SASL socket: "+err.Error())
+			bodies := w.Backend.Take()
+			if wantBody == "refuse" {
+				rep.Hit("inadmissible")
+				if accepted {
+					viol("impl-violation", "credentials that cannot be passed unaltered were accepted: "+answer)
+				}
+				if len(bodies) > 0 {
+					// asking the backend about an altered identity is the defect; a refusal without asking is the fix
+					var got struct{ Email, Password string }
+					_ = json.Unmarshal([]byte(bodies[0]), &got)
+					viol("impl-violation", fmt.Sprintf("the backend was asked about credentials that cannot be passed unaltered; it received %q", bodies[0]))
+				}
 				continue
 			}
-			id := fmt.Sprint(1000 + probe)
-			probe++
-			fmt.Fprintf(conn, "AUTH\t%s\tPLAIN\tservice=smtp\tresp=%s\n", id, base64.StdEncoding.EncodeToString([]byte("\x00"+a.user+"\x00"+a.pw)))
-			conn.SetReadDeadline(time.Now().Add(15 * time.Second))
-			rd := bufio.NewReader(conn)
-			line, _ := rd.ReadString('\n')
-			// anything more than one line?
-			conn.SetReadDeadline(time.Now().Add(60 * time.Millisecond))
-			extra, _ := rd.ReadString('\n')
-			conn.Close()
-			answer = line
-			f := strings.Split(strings.TrimSuffix(line, "\n"), "\t")
-			if extra != "" || !strings.HasSuffix(line, "\n") || len(f) < 2 || f[1] != id || (f[0] != "OK" && f[0] != "FAIL" && f[0] != "CONT") {
-				viol("impl-violation", fmt.Sprintf("SASL answer is not a single OK/FAIL/CONT line carrying id %s: %q followed by %q", id, line, extra))
+			if len(bodies) != 1 {
+				viol("broken-correspondence", fmt.Sprintf("backend received %d requests, expected 1 (answer %q)", len(bodies), answer))
 				continue
 			}
-			accepted = f[0] == "OK"
-			if accepted && (len(f) != 3 || f[2] != "user="+a.user) {
-				viol("impl-violation", fmt.Sprintf("SASL OK line %q does not name the authenticated user", line))
+			// the body, decoded by an independent JSON reader, is exactly the supplied address and password
+			email := a.user
+			if !strings.Contains(a.user, "@") {
+				email = a.user + "@" + dom
 			}
-		}
-		bodies := w.Backend.Take()
-		if wantBody == "refuse" {
-			rep.Hit("inadmissible")
-			if accepted {
-				viol("impl-violation", "credentials that cannot be passed unaltered were accepted: "+answer)
+			var got map[string]any
+			if err := json.Unmarshal([]byte(bodies[0]), &got); err != nil || len(got) != 2 || got["email"] != email || got["password"] != a.pw || !utf8.ValidString(bodies[0]) {
+				viol("impl-violation", fmt.Sprintf("the backend received %q, which does not decode to exactly email=%q password=%q", bodies[0], email, a.pw))
+				continue
 			}
-			if len(bodies) > 0 {
-				// asking the backend about an altered identity is the defect; a refusal without asking is the fix
-				var got struct{ Email, Password string }
-				_ = json.Unmarshal([]byte(bodies[0]), &got)
-				viol("impl-violation", fmt.Sprintf("the backend was asked about credentials that cannot be passed unaltered; it received %q", bodies[0]))
+			if hx.H(bodies[0]) != wantBody {
+				viol("broken-correspondence", fmt.Sprintf("request body %q, model body %q", bodies[0], hx.UnH(wantBody)))
+				continue
 			}
-			continue
-		}
-		if len(bodies) != 1 {
-			viol("broken-correspondence", fmt.Sprintf("backend received %d requests, expected 1 (answer %q)", len(bodies), answer))
-			continue
-		}
-		// the body, decoded by an independent JSON reader, is exactly the supplied address and password
-		email := a.user
-		if !strings.Contains(a.user, "@") {
-			email = a.user + "@example.com"
-		}
-		var got map[string]any
-		if err := json.Unmarshal([]byte(bodies[0]), &got); err != nil || len(got) != 2 || got["email"] != email || got["password"] != a.pw || !utf8.ValidString(bodies[0]) {
-			viol("impl-violation", fmt.Sprintf("the backend received %q, which does not decode to exactly email=%q password=%q", bodies[0], email, a.pw))
-			continue
-		}
-		if hx.H(bodies[0]) != wantBody {
-			viol("broken-correspondence", fmt.Sprintf("request body %q, model body %q", bodies[0], hx.UnH(wantBody)))
-			continue
-		}
-		want := a.status == 200 || a.status == -2
-		rep.Hit(fmt.Sprintf("backend:%d", a.status))
-		if accepted != want {
-			viol("impl-violation", fmt.Sprintf("backend behaviour %d but the attempt was answered %q", a.status, strings.TrimSpace(answer)))
+			want := a.status == 200 || a.status == -2
+			rep.Hit(fmt.Sprintf("backend:%d", a.status))
+			if accepted != want {
+				viol("impl-violation", fmt.Sprintf("backend behaviour %d but the attempt was answered %q", a.status, strings.TrimSpace(answer)))
+			}
 		}
 	}
 	if o.Replay == "" {
